@@ -326,7 +326,8 @@ pub struct ReadSpec<'a> {
     /// SEIPDv1 default mode with an explicit `max_message_size`
     pub v1_limit: Option<usize>,
     /// decryption options: bit 0 = enable_gnupg_aead, bit 1 = enable_legacy (SED);
-    /// bit 2: a consumer that calls the reader again after an error (read, fill_buf, read_to_end)
+    /// bit 2: a consumer that calls the reader again after an error (read, fill_buf, read_to_end);
+    /// bit 3: the SEIPDv1 read mode is set before the enable_* calls instead of after them
     pub opts: u8,
 }
 
@@ -358,16 +359,27 @@ pub fn read_message<R: BufRead + std::fmt::Debug + Send>(input: R, spec: &ReadSp
             Opener::None => Ok(msg),
             opener => {
                 let mut options = pgp::composed::DecryptionOptions::new();
+                let set_mode = |o: pgp::composed::DecryptionOptions| {
+                    if spec.streaming_v1 {
+                        o.set_seipdv1_read_mode(pgp::types::Seipdv1ReadMode::Streaming)
+                    } else if let Some(l) = spec.v1_limit {
+                        o.set_seipdv1_read_mode(pgp::types::Seipdv1ReadMode::CheckFirst { max_message_size: l })
+                    } else {
+                        o
+                    }
+                };
+                // (bit 3: the read mode is set before the enable_* calls instead of after them)
+                if spec.opts & 8 != 0 {
+                    options = set_mode(options);
+                }
                 if spec.opts & 1 != 0 {
                     options = options.enable_gnupg_aead();
                 }
                 if spec.opts & 2 != 0 {
                     options = options.enable_legacy();
                 }
-                if spec.streaming_v1 {
-                    options = options.set_seipdv1_read_mode(pgp::types::Seipdv1ReadMode::Streaming);
-                } else if let Some(l) = spec.v1_limit {
-                    options = options.set_seipdv1_read_mode(pgp::types::Seipdv1ReadMode::CheckFirst { max_message_size: l });
+                if spec.opts & 8 == 0 {
+                    options = set_mode(options);
                 }
                 let plain_ring = spec.opts & 3 == 0 && !spec.streaming_v1 && spec.v1_limit.is_none();
                 match opener {
@@ -536,6 +548,15 @@ pub fn boundary_len(p: &mut Planner, cfg: &Value, max: usize) -> usize {
         2 * 8192,
         8192 - lit_hdr,
     ];
+    // SEIPDv1: the decrypted stream (literal packet + 22 MDC octets) ends on a refill boundary of the
+    // decryptor: 8192 first, then 8192 less the 22 octets it holds back
+    if jstr(&cfg["enc"], "k") == "v1" && p.chance(1, 6) {
+        let k = p.below(3);
+        let hdr = *p.pick(&[3usize, 3, 6]);
+        let d = p.range(0, 2) as isize - 1;
+        let v = (8192 + k * 8170) as isize - 22 - (lit_hdr + hdr) as isize + d;
+        return (v.max(0) as usize).min(max);
+    }
     let v = match p.below(10) {
         0..=5 => {
             let b = *p.pick(&bases);
